@@ -879,3 +879,9 @@ package mq
 
 //@ func (*Undefined).WriteTo
 //@   assigns $alloc
+
+//@ func (*Unsubscribe).Filters
+//@   assigns $alloc
+//@   loop 0:
+//@     assigns elems(res)
+//@     decreases len(p.filters) - rangeindex
